@@ -9,7 +9,7 @@ from vt.env.blerig import BleRig
 
 
 class BleH(explore.Harness):
-    ALPH = ["req1", "req2", "step", "replay", "future", "corrupt", "cancel", "timer", "drop"]
+    ALPH = ["req1", "req2", "step", "write-fails", "write-ack-lost", "replay", "future", "corrupt", "cancel", "timer", "drop"]
     # (req3: a read of ANOTHER characteristic - whose answer cannot be mistaken for req1's - for the attribution oracle, see _check_results)
 
     def __init__(self, p):
@@ -73,6 +73,10 @@ class BleH(explore.Harness):
             elif a == "step":
                 if w:
                     m.append(a)
+            elif a in ("write-fails", "write-ack-lost"):
+                # one GATT write is refused by the stack / delivered but its acknowledgement lost, while the link stays up
+                if w and w[1] == "write" and getattr(self, "n_wfail", 0) < 2:
+                    m.append(a)
             elif a == "replay":
                 if w and w[1] == "read" and self.delivered:
                     m.append(a)
@@ -125,6 +129,14 @@ class BleH(explore.Harness):
             if w[1] == "read" and acc.out.get(w[2]):
                 self.delivered.append(acc.out[w[2]][0])
             self.rig.release()
+        elif label in ("write-fails", "write-ack-lost"):
+            from bleak.exc import BleakError
+
+            self.n_wfail = getattr(self, "n_wfail", 0) + 1
+            if label == "write-fails":
+                self.rig.release(exc=BleakError("Write rejected (adapter busy)"))
+            else:
+                self.rig.release(override="ack-lost")
         elif label == "replay":
             self.rig.release(override=self.delivered[0])
         elif label == "corrupt":
